@@ -56,6 +56,11 @@ class GotranCCodePrinter(C99CodePrinter):
         # All variables are doubles, also those with integer values
         return f"fabs({self._print(expr.args[0])})"
 
+    def _print_Mod(self, expr):
+        # The result has the sign of the divisor, while fmod has the sign of the dividend
+        num, den = (self._print(arg) for arg in expr.args)
+        return f"fmod(fmod({num}, {den}) + {den}, {den})"
+
     def _print_Piecewise(self, expr):
         if isinstance(expr.args[0][0], Assignment):
             result = []
